@@ -13,6 +13,7 @@
 package c08
 
 import (
+	"bytes"
 	"fmt"
 	"os"
 	"runtime/debug"
@@ -236,6 +237,27 @@ var defaultsEnv = func() starlark.StringDict {
 	return d
 }()
 
+// execFile executes src; with viaBytes the program goes through its serialized form first (Program.Write,
+// CompiledProgram), the way a host with a compilation cache runs it: binding must not depend on that.
+func execFile(th *starlark.Thread, name, src string, pre starlark.StringDict, viaBytes bool) (starlark.StringDict, error) {
+	if !viaBytes {
+		return starlark.ExecFileOptions(&syntax.FileOptions{}, th, name, src, pre)
+	}
+	_, prog, err := starlark.SourceProgramOptions(&syntax.FileOptions{}, name, src, pre.Has)
+	if err != nil {
+		return nil, err
+	}
+	var buf bytes.Buffer
+	if err := prog.Write(&buf); err != nil {
+		return nil, err
+	}
+	prog2, err := starlark.CompiledProgram(&buf)
+	if err != nil {
+		return nil, err
+	}
+	return prog2.Init(th, pre)
+}
+
 func compileSig(s Sig, lambda bool) (starlark.Value, error) {
 	key := s.key()
 	if lambda {
@@ -247,7 +269,7 @@ func compileSig(s Sig, lambda bool) (starlark.Value, error) {
 		return f, nil
 	}
 	th := &starlark.Thread{Name: "def"}
-	g, err := starlark.ExecFileOptions(&syntax.FileOptions{}, th, "sig.star", s.Source(lambda), defaultsEnv)
+	g, err := execFile(th, "sig.star", s.Source(lambda), defaultsEnv, len(key)%2 == 1)
 	if err != nil {
 		return nil, fmt.Errorf("cannot compile %q: %v", s.Source(lambda), err)
 	}
@@ -338,7 +360,7 @@ func wrapper(npos int, named []string, hasStar, hasSS bool) (starlark.Value, err
 	src := "def w(" + strings.Join(params, ", ") + "):\n    enter()\n    r = f(" + strings.Join(args, ", ") +
 		")\n    x = [0, 0, 0, 0, 0, 0, 0, 0, 0, 0, 0, 0]\n    return r\n"
 	th := &starlark.Thread{Name: "wrap"}
-	g, err := starlark.ExecFileOptions(&syntax.FileOptions{}, th, "wrap.star", src, starlark.StringDict{"enter": enterBuiltin})
+	g, err := execFile(th, "wrap.star", src, starlark.StringDict{"enter": enterBuiltin}, len(src)%2 == 1)
 	if err != nil {
 		return nil, fmt.Errorf("cannot compile wrapper %q: %v", src, err)
 	}
